@@ -1,6 +1,6 @@
 """C13 -- leaf-change report mode gives the same verdict as the default mode."""
 import os, re
-import vf, campaign, report
+import vf, campaign, report, difftree
 
 _NAME = re.compile(r"\b((?:fn|var)\d+)\b")
 
@@ -19,9 +19,9 @@ def main():
         a, e1, da = campaign.build_one(c, idx, case, comp, which=1, sub=comp + "/a")
         b, e2, db = campaign.build_one(c, idx, case, comp, which=2, sub=comp + "/b")
         if not a or not b:
-            return []
+            return [], []
         env = vf.henv(da)
-        evs = []
+        evs, trees = [], []
         # Reading: the property compares `--leaf-changes-only` with the default mode, no other option (with --harmless on both sides the two
         # modes do disagree on harmless-only changes; that is outside the statement)
         for extra in ([],):
@@ -32,9 +32,22 @@ def main():
             evs.append({"e": "Leaf", "case": idx, "comp": comp, "extra": " ".join(extra), "kinds": [m["kind"] for m in case["muts"]], "inUnion": case["expect"]["inUnion"],
                         "exitDefault": r0.exit, "exitLeaf": r1.exit, "changedDefault": changed, "mentionedLeaf": sorted(set(_NAME.findall(r1.out))),
                         "ret": campaign.retof(r0, r1), "leafout": r1.out[:600], "defout": r0.out[:400]})
-        return evs
+            # hook H3: the forest behind the leaf report (DiffTreeTrace!LeafVerdict: leaf interface counts, leaf change bit) and behind the default one
+            for o in (["--leaf-changes-only"], []):
+                te = difftree.tree_event(abidiff, a, b, o + extra, env, idx, base=(r0 if not o else None), extra={"comp": comp})
+                if te is not None:
+                    trees.append(te)
+        return evs, trees
 
-    events = [e for evs in vf.pmap(one, [(i, cs, comp) for i, cs in enumerate(cases) for comp in comps]) for e in evs]
+    res = vf.pmap(one, [(i, cs, comp) for i, cs in enumerate(cases) for comp in comps])
+    events = [e for evs, _t in res for e in evs]
+    trees = []
+    for _e, ts in res:
+        for st, x in ts:
+            if st == "ok":
+                trees.append(x)
+            else:
+                c.discard(x)
     c.cov["evaluations"] = len(events)
     c.cov["distinct_nontrivial"] = len({e["case"] for e in events if e["changedDefault"]})
     c.cov["rule"] = ("TLC-generated program pairs with 1-3 mutations; default report vs --leaf-changes-only --impacted-interfaces; "
@@ -43,6 +56,11 @@ def main():
         c.sample(e)
     case_of = lambda ev: campaign.case_files(os.path.join(c.workdir, "p%d" % ev["case"]))
     vf.pmap(lambda i: c.validate("AbiTrace.tla", "AbiTrace.cfg", events[i:i + 3000], case_of=case_of), range(0, len(events), 3000), jobs=4)
+    c.model("DiffTree.tla", "DiffTreeLatticeLeaf.cfg")
+    vf.pmap(lambda i: c.validate("DiffTreeTrace.tla", "DiffTreeTrace.cfg", trees[i:i + 400], case_of=case_of), range(0, len(trees), 400), jobs=6)
+    c.cov["diff_forests_validated"] = len(trees)
+    c.cov["leaf_mode_forests"] = sum(1 for t in trees if t["leaf"])
+    c.cov["evaluations"] += len(trees)
     c.finish()
 
 
